@@ -41,23 +41,10 @@ func (e *Env) emissionsOf(l *facts.Level, lf *ir.Leaf) (list []emission, builder
 		if len(r.Args) != 2 || !isStringConst(r.Args[1], "/") {
 			return nil, false, fmt.Errorf("strings.Join with a separator other than \"/\"")
 		}
-		x := r.Args[0]
-		for x.Op == ir.OBuiltin && x.Str == "append" {
-			if len(x.Args) != 2 || x.Args[1].Op != "list" || len(x.Args[1].Args) != 1 {
-				return nil, false, fmt.Errorf("append of other than one element")
-			}
-			pieces = append([]*ir.Term{x.Args[1].Args[0]}, pieces...)
-			x = x.Args[0]
-		}
-		if x.Op == "list" {
-			// the slice the elements are appended to starts as a literal with elements of its own ([]string{lower})
-			pieces = append(append([]*ir.Term{}, x.Args...), pieces...)
-		}
-		if x.Op != ir.OAlloc && !(x.Op == ir.OSlice) && x.Op != ir.OAddr {
-			// the initial []string{} literal
-			if !(x.Op == ir.OConst) {
-				// tolerate any fresh empty slice form: slice of a zero-length alloc
-			}
+		var err error
+		pieces, err = flattenSlice(r.Args[0], 0)
+		if err != nil {
+			return nil, false, err
 		}
 	case isCallOf(r, "(*strings.Builder).String") || r.Op == "concat":
 		// a strings.Builder, one concatenation, or a mixture (lower-level text + builder.String())
@@ -424,6 +411,34 @@ func calleeName(t *ir.Term) string {
 		return fn.FullName()
 	}
 	return ""
+}
+
+// flattenSlice: the elements of a []string value whose construction is spelled out on the path: a literal, nil or
+// an empty fresh slice, append(s, e...) of such values - where what is appended may itself be such a slice
+// (append(head, helper(...)...)).
+func flattenSlice(t *ir.Term, depth int) ([]*ir.Term, error) {
+	if depth > 64 {
+		return nil, fmt.Errorf("slice built through too many appends")
+	}
+	switch {
+	case t.Op == "list":
+		return append([]*ir.Term{}, t.Args...), nil
+	case t.Op == ir.OBuiltin && t.Str == "append" && len(t.Args) == 2:
+		head, err := flattenSlice(t.Args[0], depth+1)
+		if err != nil {
+			return nil, err
+		}
+		tail, err := flattenSlice(t.Args[1], depth+1)
+		if err != nil {
+			return nil, err
+		}
+		return append(head, tail...), nil
+	case t.Op == ir.OBuiltin && t.Str == "append":
+		return nil, fmt.Errorf("append of other than one slice of elements")
+	case t.Op == ir.OConst && t.C == nil, t.Op == ir.OAlloc, t.Op == ir.OAddr, t.Op == ir.OSlice:
+		return nil, nil // nil, or a fresh empty slice ([]string{} is a slice of a zero-length allocation)
+	}
+	return nil, fmt.Errorf("the list of parts is not spelled out on this path: %s", clip(t.Pretty()))
 }
 
 // groupStream turns the sequence of strings written to the text into emissions: a piece that is already one
